@@ -161,7 +161,6 @@ PROPS = {
         ],
         assumptions=["the handler did not close its send side before returning an error (excluded point: "
                      "error_after_closesend_counterexample)",
-                     "auto-flush, or ManualFlush with an empty writer (excluded point: manual_flush_masks_error_counterexample)",
                      "code attached below fewer than 100 wrappers (99 through drpcmux) (excluded point: "
                      "code_depth_100_counterexample)",
                      "the client keeps receiving; no transport fault, no cancellation"],
